@@ -58,7 +58,8 @@ func executeCompaction(db *DB) (compactionMetadata *proto.CompactionMetadata, er
 	compactionAction := db.sstableManager.candidateTablesForCompaction(db.compactedMaxSizeBytes, db.compactionRatio)
 	paths := compactionAction.pathsToCompact
 	numRecords := compactionAction.totalRecords
-	if len(paths) <= db.compactionFileThreshold {
+	// without a selected table there is nothing to do, whatever the threshold is set to
+	if len(paths) == 0 || len(paths) <= db.compactionFileThreshold {
 		return nil, nil
 	}
 
